@@ -1,6 +1,6 @@
 SPECIFICATION Spec
 CONSTANTS
-  Universe = "block"
+  Universe = "blockT"
   MaxLen = 5
 INVARIANT MachineOK
 CHECK_DEADLOCK FALSE
